@@ -272,6 +272,12 @@ pub fn ls(cache: &Path) -> impl Iterator<Item = Result<Metadata>> {
                     format!("Error getting bucket entries from {}", owned_path.display())
                 })?
                 .into_iter()
+                // Lookups ignore a record whose integrity does not parse: so
+                // does the listing (it used to panic on one).
+                .filter(|se| match &se.integrity {
+                    Some(i) => i.parse::<Integrity>().is_ok(),
+                    None => true,
+                })
                 .rev()
                 .collect::<HashSet<SerializableMetadata>>()
                 .into_iter()
